@@ -115,6 +115,8 @@ type HealthEvt struct {
 }
 
 type NotifEvt struct {
+	DoneStep  uint64 // step at which the handler returned (0 = not yet)
+	DoneOrd   uint64
 	Inst, Gen int
 	Leader    bool // IsLeader() when the notification was injected
 	Kind      string
@@ -159,6 +161,7 @@ type Hist struct {
 	Jitters []*JitterEvt
 	Stalls  []StallEvt
 	Attempts []*AttemptEvt
+	Expiries []ExpiryEvt // starts of the grace-expiry handler
 	Viol    []Violation
 
 	ord uint64
@@ -168,6 +171,12 @@ type Hist struct {
 	keepAll bool
 	hash    uint64
 	nlines  int
+}
+
+type ExpiryEvt struct {
+	T    time.Duration
+	Step uint64
+	Ord  uint64
 }
 
 type AttemptEvt struct {
